@@ -59,20 +59,22 @@ pub struct UE {
 #[ts(export_to = "nested/UF_custom.ts")]
 pub struct UF {
     pub e: Vec<UE>,
-    pub g: HashMap<String, UG<u8>>,
+    pub g: HashMap<String, UG<UH>>,
 }
 
 #[derive(TS, Serialize, Deserialize, Clone, Debug, Samples)]
 #[ts(export_to = "two.ts")]
 pub struct UG<T> {
     pub t: T,
+    // (a dependency of the body that one of the instantiations also has as its argument: `UG<UH>`)
+    pub h: Option<Box<UH>>,
 }
 
 #[derive(TS, Serialize, Deserialize, Clone, Debug, Samples)]
 #[ts(export_to = "two.ts")]
 pub struct UGx {
     pub g: UG<String>,
-    pub up: UH,
+    pub v: Vec<i32>,
 }
 
 /// Third type of `two.ts`; as text `UG2` sorts before `UG<T>` (`2` < `<`), as an identifier after `UG`.
